@@ -60,7 +60,10 @@ def run(res, programs, tier):
             halftest.rule(res, P, P.name, "R06.5")
             _r06_6(res, P, P.name)
             _r06_7(res, P, P.name)
+            _r06_9(res, P, P.name)
             exact_laundering(res, P, P.name, "R06.8")
+            from . import pow2base
+            pow2base.rule(res, P, P.name, "R10.8")      # shared with C10: RBig::to_float / comparisons with FBig scale digit counts
     res.rule("R06.1", "infallible From<A> for B between number types only along value-set inclusions (impl table)")
     res.rule("R06.2", "a right shift of the converted value inside a TryFrom body is dominated by a test of the shifted-out bits with an Err edge")
     res.rule("R06.4", "sibling agreement: f32/f64 FloatEncoding::{encode,decode} have the same structure; to_f32/to_f64 of large integers split at one position (kept bits, sticky range, exponent)")
@@ -410,3 +413,52 @@ def exact_laundering(res, P, cfgname, rid):
 LEVEL = LEVEL + ' Also (R06.4) the f32 / f64 encode kernels and the to_fNN splits agree structurally, (R06.5) every half test compares a remainder with the divisor it came from, (R06.6) IBig `>>` (flooring) appears only at reviewed exact sites.'
 TECHNIQUE = 'impl-table lattice rule for infallible From; dominance of shifted-out-bit tests; sibling skeleton agreement (f32 ~ f64); half-test pairing by backward slices; reviewed inventory of flooring shifts'
 LEVEL = LEVEL + " Also (R06.4) all f32 / f64 sibling functions have the same statement skeleton; (R06.7) the encoders' range thresholds are MAX_EXP and MIN_EXP - 2*MANT_DIG; (R06.8) no Exact(..) launders a .value()."
+LEVEL = LEVEL + ' (R10.8) inside a `B.is_power_of_two()` branch of the float / rational code every shift amount depends on B.trailing_zeros(): a digit count is never used as a bit count for bases 4, 8, 16, ...'
+
+
+# ---- R06.9: a rational converts to an integer only when its denominator is one --------------------------------
+# TryFrom<Repr> for UBig / IBig (RBig, Relaxed and all primitive targets delegate to these two): every block that
+# builds the `Ok(..)` result is dominated by the true edge of `is_one()` applied to the *denominator field of the
+# argument*.  (Sibling agreement: the two impls must guard with the same field.)
+def _r06_9(res, P, cfgname):
+    import re
+    res.rule("R06.9", "TryFrom<rational Repr> for UBig / IBig returns Ok only on the true edge of `self.denominator.is_one()`")
+    n = 0
+    pat = re.compile(r"TryFrom<dashu_ratio::repr::Repr> for dashu_int::(ubig::UBig|ibig::IBig)>::try_from$")
+    for f in P.fns("dashu_ratio"):
+        body = f.get("mir")
+        if not body or not pat.search(f["p"]):
+            continue
+        cfg = mir.cfg_of(body)
+        du = mir.defuse_of(body)
+        # true targets of switches on is_one(&arg1.denominator)
+        gates = []
+        for bb, t, fr in mir.iter_calls(body):
+            cp = fr and (fr.get("rp") or fr["p"]) or ""
+            if not cp.endswith("UBig::is_one") or not t["a"]:
+                continue
+            al = (mir.op_place(t["a"][0]) or {}).get("l")
+            on_den = False
+            for (b2, idx, node) in du.defs.get(al, []):
+                if idx != "t" and node["k"] == "as" and node["rv"]["k"] == "ref":
+                    pl = node["rv"]["p"]
+                    if pl.get("l") == 1 and any(pr.get("k") == "f" and pr.get("n") == "denominator" for pr in pl.get("p", [])):
+                        on_den = True
+            nxt = t.get("t")
+            sw = body["bbs"][nxt]["t"] if nxt is not None else {}
+            if on_den and sw.get("k") == "switch" and (mir.op_place(sw["d"]) or {}).get("l") == t["d"]["l"] and [v for v, _ in sw["ts"]] == ["0"]:
+                gates.append(sw["o"])
+        k = 0
+        for i, j, st in mir.iter_stmts(body):
+            if st["k"] == "as" and st["p"].get("l") == 0 and not st["p"].get("p") and st["rv"]["k"] == "agg" and st["rv"].get("adt") == "core::result::Result" and st["rv"].get("vn") == "Ok":
+                k += 1
+                n += 1
+                key = "%s|Ok #%d" % (f["p"], k)
+                if any(cfg.dominates(g, i) for g in gates):
+                    res.ok("R06.9", cfgname, key, sample=dict(function=f["p"]))
+                else:
+                    res.fail("R06.9", cfgname, key, "%s returns Ok(..) on a path that has not passed `denominator.is_one()` of the source: a non-integral rational converts "
+                             "silently (and an integral one may be refused)" % f["p"], mir.span_loc(st.get("sp") or f["sp"]))
+    res.floor("R06.9", cfgname, n, 2, "Ok results of rational -> integer conversions")
+LEVEL = LEVEL + ' (R06.9) TryFrom<rational> for UBig / IBig (to which RBig, Relaxed and every primitive target delegate) build Ok only behind `denominator.is_one()` of the source.'
+
